@@ -47,7 +47,8 @@ def check_copy(run, eff, f, cls_fields, rule='R4'):
     atoms = E.reachable_atoms(ret, heap)
     # (c) independence: no reachable mutable field may alias the original
     shared = sorted({(path, a[1]) for path, a in atoms if a[0] == 'loc' and path
-                     and path.split('.')[-1] not in IMMUTABLE_FIELDS and a[1].split('.')[-1] not in IMMUTABLE_FIELDS})
+                     and path.split('.')[-1] not in IMMUTABLE_FIELDS and a[1].split('.')[-1] not in IMMUTABLE_FIELDS
+                     and path.split('.')[-1] in E.DENOTATION_FIELDS})
     if shared:
         for path, src in shared:
             run.violation(rule + 'c', f, 'result.%s' % path,
